@@ -29,6 +29,7 @@ const (
 	verifTickCliWLExit
 	verifTickCliTimeout
 	verifTickCliCloseDone
+	verifTickCliTimeoutResolved
 )
 
 func verifTick(which int)                    {}
